@@ -196,6 +196,21 @@ def main(argv=None):
                 note = f"(replay search crashed: {e})"
             if found:
                 replay_path = found
+        if replay_path is None:
+            # recorded witnesses of REPAIRED defects and the probes of this property are concrete inputs too: one that
+            # fails on this tree is a replay of the violation (witnesses of open findings are expected to fail: skipped)
+            import glob
+            open_witnesses = {os.path.basename(k.get("witness", "")) for k in load_known_findings() if k.get("kind", "finding") == "finding"}
+            for cand in sorted(glob.glob(os.path.join(ROOT, "witness", f"{pid}_*.py")) + glob.glob(os.path.join(ROOT, "probes", f"{pid}_*.py"))):
+                if os.path.basename(cand) in open_witnesses:
+                    continue
+                try:
+                    rc2, _o, _e = run_native([cand], timeout=120)
+                except Exception:
+                    continue
+                if rc2 == 1:
+                    replay_path = cand
+                    break
         names = sorted({ob.name for ob in remaining} | {v.get("name", "bounded") for v in bounded_violations})
         if replay_path is None:
             replay_path = os.path.join(ROOT, "replays", f"{pid}-obligation-{hashlib.sha1(' '.join(names).encode()).hexdigest()[:10]}.txt")
